@@ -48,5 +48,10 @@ let () =
           let ws = List.mapi (fun i n -> data n i) ls in
           let (r, o) = bs_run ws { bs_buf = []; bs_cap = N.to_nat bs_buffer_size } (os_init [] (parse_script sc)) in
           print_endline (out (match r with Ok _ -> Ok [] | Fail e -> Fail e) o true)
+        | ["TB"; lens; sc] ->
+          let ls = if lens = "-" then [] else List.map int_of_string (String.split_on_char ',' lens) in
+          let ws = List.mapi (fun i n -> data n i) ls in
+          let (r, o) = tbs_run ws (N.to_nat tbs_block_size) (os_init [] (parse_script sc)) in
+          print_endline (out (match r with Ok _ -> Ok [] | Fail e -> Fail e) o true)
         | _ -> print_endline "?"
       with Failure m -> print_endline ("? " ^ m))
